@@ -143,6 +143,40 @@ var deviations = []deviation{
 	{"identity-other-key", func(in *input, c *certSpec) { in.Ident = identSpec{Kind: "other", Key: kB} }, "accept-tls"},
 	{"identity-honest-key", func(in *input, c *certSpec) { in.Ident = identSpec{Kind: "other", Key: kE} }, "accept-tls"},
 	{"identity-wrong-type", func(in *input, c *certSpec) { in.Ident = identSpec{Kind: "wrongtype"} }, "accept-tls"},
+	// the certificate NAMES another key in its URIs (proving only the CN key) and the
+	// identity message claims that named key: the identity must be compared with the
+	// key PROVEN in the handshake (CN + verified signature), whatever the URIs say
+	{"uri-victim-identity-victim", func(in *input, c *certSpec) {
+		c.URIs = []uriSpec{uriOf(kE)}
+		in.Ident = identSpec{Kind: "other", Key: kE}
+	}, "accept-tls"},
+	{"uri-victim-then-own-identity-victim", func(in *input, c *certSpec) {
+		c.URIs = []uriSpec{uriOf(kE), uriOf(kA)}
+		in.Ident = identSpec{Kind: "other", Key: kE}
+	}, "accept-tls"},
+	{"uri-own-then-victim-identity-victim", func(in *input, c *certSpec) {
+		c.URIs = []uriSpec{uriOf(kA), uriOf(kE)}
+		in.Ident = identSpec{Kind: "other", Key: kE}
+	}, "accept-tls"},
+	{"uri-other-held-identity-other-held", func(in *input, c *certSpec) {
+		c.URIs = []uriSpec{uriOf(kB)}
+		in.Ident = identSpec{Kind: "other", Key: kB}
+	}, "accept-tls"},
+	{"uri-victim-identity-own", func(in *input, c *certSpec) { c.URIs = []uriSpec{uriOf(kE)} }, "accept-tls"},
+	{"no-uri-identity-victim", func(in *input, c *certSpec) {
+		c.URIs = nil
+		in.Ident = identSpec{Kind: "other", Key: kE}
+	}, "accept-tls"},
+	{"uri-victim-only-cn-empty-identity-victim", func(in *input, c *certSpec) {
+		c.CN = nm("empty", kA)
+		c.URIs = []uriSpec{uriOf(kE)}
+		in.Ident = identSpec{Kind: "other", Key: kE}
+	}, "accept-tls"},
+	{"uri-victim-old-cn-identity-victim", func(in *input, c *certSpec) {
+		c.CN = nm("old", kA)
+		c.URIs = []uriSpec{uriOf(kE)}
+		in.Ident = identSpec{Kind: "other", Key: kE}
+	}, "accept-tls"},
 	{"identity-bad-key", func(in *input, c *certSpec) { in.Ident = identSpec{Kind: "badkey"} }, "accept-tls"},
 	// F29: the peer proves its own key, then sends an identity without the public-key field
 	{"identity-no-key", func(in *input, c *certSpec) { in.Ident = identSpec{Kind: "nokey"} }, "accept-tls"},
@@ -308,6 +342,12 @@ func mutate(rng *rand.Rand, in *input, n int) {
 					in.Ident = identSpec{Kind: []string{"wrongtype", "badkey", "nokey"}[rng.Intn(3)]}
 				case 3:
 					in.Reident = rng.Intn(nKeys-1) + 2
+				}
+				if rng.Intn(3) == 0 {
+					// name a key in the URIs and claim exactly that key afterwards
+					k := rng.Intn(nKeys-1) + 1
+					c.URIs = append([]uriSpec{uriOf(k)}, c.URIs...)
+					in.Ident = identSpec{Kind: "other", Key: k}
 				}
 			}
 		}
